@@ -2,7 +2,7 @@
 from __future__ import annotations
 
 from ..avals import *   # noqa
-from ..decide import Runs
+from ..decide import Runs, definite, soft, benign_unknown
 
 IO_CLASSES = ('mciipm.IpmReader', 'mciipm.IpmWriter', 'mciipm.VbsReader', 'mciipm.VbsWriter', 'mciipm.IpmParamReader')
 
@@ -60,3 +60,97 @@ def truthy(it, name, kind='any', choices=None):
     v = SymV(name, kind, choices)
     it.binds[('truth', name)] = True
     return v
+
+
+def cli_glue_ob(prog, res, oid, mod, tool, in_param, out_param, in_mode, out_mode, passthrough=(), formats_switch=False,
+                extra_kwargs=None):
+    """The cli_run glue of a tool: the named files are opened with the right modes and handed to the tool function together
+    with the options chosen on the command line; with formats_switch, --no1014blocking turns both formats into 'vbs'."""
+    from ..report import func_where
+    if not (prog.has_func(f'{mod}.cli_run') and prog.has_func(f'{mod}.{tool}')):
+        return None
+    cfi = prog.func(f'{mod}.cli_run')
+    tfi = prog.func(f'{mod}.{tool}')
+
+    def tool_summary(it, f, args, kwargs, node, self_obj):
+        names = [a.arg for a in f.node.args.args]
+        b = dict(zip(names, args))
+        b.update({k: v for k, v in kwargs.items() if k != '**'})
+        it.user.setdefault('tool_calls', []).append((b, kwargs.get('**')))
+        return ConstV(None)
+
+    def entry_c(it):
+        nb = SymV('no1014blocking', 'bool')
+        # both settings of the switch are explored whether or not the code tests it
+        it.binds[('truth', 'no1014blocking')] = it.choose(2, '--no1014blocking given / not given') in (0, None)
+        inn, outn = it.sym_str('in_filename', lo=1), it.sym_str('out_filename', lo=1)
+        kw = {'in_filename': inn, 'out_filename': outn, 'no1014blocking': nb, 'debug': ConstV(False)}
+        u = dict(nb=nb, inn=inn, outn=outn, opts={})
+        for name in passthrough:
+            u['opts'][name] = kw[name] = truthy(it, name)
+        if formats_switch:
+            u['inf'] = kw['in_format'] = SymV('in_format', 'str', choices=('vbs', '1014'))
+            u['outf'] = kw['out_format'] = SymV('out_format', 'str', choices=('vbs', '1014'))
+        for k, v in (extra_kwargs or {}).items():
+            kw[k] = v(it)
+        it.user.update(u)
+        return it.call_function(cfi, [], kw)
+    summ_c = {tfi.short: tool_summary}
+    for helper in ('cli.print_banner', 'cli.get_config', f'{mod}.print_check_details'):
+        if prog.has_func(helper):
+            # prints / reads the configuration files: no part in what reaches the tool function
+            def helper_summary(it, f, args, kwargs, node, self_obj, helper=helper):
+                return DictV(open_=True, desc='get_config()') if helper.endswith('get_config') else ConstV(None)
+            summ_c[prog.func(helper).short] = helper_summary
+    if prog.has_func('mciipm.ipm_info'):
+        summ_c[prog.func('mciipm.ipm_info').short] = lambda it, f, args, kwargs, node, self_obj: DictV(open_=True, desc='ipm_info()')
+    runs_c = Runs(prog, entry_c, summaries=summ_c, res=res)
+
+    def chk_c(p, mode):
+        if p.outcome != 'return':
+            return [definite(f'cli_run raises {p.value!r}')] if p.outcome == 'raise' else []
+        it = p.interp
+        u = it.user
+        calls = u.get('tool_calls', [])
+        if len(calls) != 1:
+            return [definite(f'{tool} is called {len(calls)} times by cli_run')]
+        b, extra = calls[0]
+
+        def arg(name):
+            if name in b:
+                return it.resolve(b[name])
+            if isinstance(extra, DictV) and name in extra.items:
+                return it.resolve(extra.items[name])
+            return None
+        fails = []
+        opens = {e.data['file']: e for e in p.evs('open')}
+        for role, name, fname, mode_ in (('input', in_param, u['inn'], in_mode), ('output', out_param, u['outn'], out_mode)):
+            f = arg(name)
+            e = opens.get(f)
+            if e is None:
+                fails.append(soft(f'the {role} file handed to {tool} is not a file opened by cli_run: {f!r}'))
+                continue
+            a = e.data['args']
+            if not (a and it.resolve(a[0]) is fname):
+                fails.append(definite(f'the {role} file is opened from {a[0] if a else None!r}, not from the {role} file name', e.node))
+            if f.mode != mode_:
+                fails.append(definite(f'the {role} file is opened with mode {f.mode!r}, not {mode_!r}', e.node))
+        nb = it.binds.get(('truth', 'no1014blocking'))
+        if formats_switch:
+            for name, sym in (('in_format', u['inf']), ('out_format', u['outf'])):
+                v = arg(name)
+                if nb:
+                    if not (isinstance(v, SeqV) and v.is_lit() and v.lit_value() == 'vbs'):
+                        fails.append(definite(f'--no1014blocking is given but {name} reaches {tool} as {v!r}, not "vbs"'))
+                elif v is not sym:
+                    fails.append(definite(f'{name} reaches {tool} as {v!r}, not the value chosen on the command line'))
+        elif arg('no1014blocking') is not u['nb']:
+            fails.append(definite(f'no1014blocking reaches {tool} as {arg("no1014blocking")!r}, not the switch given on the command line'))
+        for name, sym in u['opts'].items():
+            if arg(name) is not sym:
+                fails.append(definite(f'{name} reaches {tool} as {arg(name)!r}, not the value chosen on the command line'))
+        return fails
+    return runs_c.judge(oid, f'{mod}.cli_run: the named files are opened {in_mode!r} / {out_mode!r} and handed to {tool} with the options '
+                             f'chosen on the command line' + ('; --no1014blocking makes both formats vbs' if formats_switch else ''),
+                        func_where(cfi), f"with open(kwargs['in_filename'], {in_mode!r}) ...: {tool}(...)", chk_c,
+                        rule=f'{oid}.cli.{tool}', unknown_ok=benign_unknown)
